@@ -106,10 +106,29 @@ package consensus
 // MsgFromProto copies every scalar field of the decoded variant into the native message (the nested
 // block ids, proposals, votes, parts and bit arrays are converted by their own functions); MsgToProto
 // is the mirror image, so a field dropped on either side is a field that does not survive the round trip.
+// (interface method: pure; at a call the contracts of the nine message types refine it by dynamic type)
 //@ trusted func (m Message) ValidateBasic() (err error)
+//@   modifies nothing
+// What a decoded message guarantees to the reactor, by type (the decoder ends in the message's own
+// ValidateBasic): nested messages are present, bit arrays satisfy their representation invariant and
+// their size caps, a proposal names at most MaxBlockPartsCount parts. The decoder itself never panics on
+// what gogo/protobuf's Unmarshal produces (a oneof wrapper always holds the inner message it allocated).
+//@ spec func wireMsgOK(m *kcons.Message) bool = m != nil && (dyntype(m.Sum) == typeid(*kcons.Message_NewRoundStep) ==> unbox(m.Sum, *kcons.Message_NewRoundStep) != nil && unbox(m.Sum, *kcons.Message_NewRoundStep).NewRoundStep != nil) && (dyntype(m.Sum) == typeid(*kcons.Message_NewValidBlock) ==> unbox(m.Sum, *kcons.Message_NewValidBlock) != nil && unbox(m.Sum, *kcons.Message_NewValidBlock).NewValidBlock != nil) && (dyntype(m.Sum) == typeid(*kcons.Message_Proposal) ==> unbox(m.Sum, *kcons.Message_Proposal) != nil && unbox(m.Sum, *kcons.Message_Proposal).Proposal != nil) && (dyntype(m.Sum) == typeid(*kcons.Message_ProposalPol) ==> unbox(m.Sum, *kcons.Message_ProposalPol) != nil && unbox(m.Sum, *kcons.Message_ProposalPol).ProposalPol != nil) && (dyntype(m.Sum) == typeid(*kcons.Message_BlockPart) ==> unbox(m.Sum, *kcons.Message_BlockPart) != nil && unbox(m.Sum, *kcons.Message_BlockPart).BlockPart != nil) && (dyntype(m.Sum) == typeid(*kcons.Message_Vote) ==> unbox(m.Sum, *kcons.Message_Vote) != nil && unbox(m.Sum, *kcons.Message_Vote).Vote != nil) && (dyntype(m.Sum) == typeid(*kcons.Message_HasVote) ==> unbox(m.Sum, *kcons.Message_HasVote) != nil && unbox(m.Sum, *kcons.Message_HasVote).HasVote != nil) && (dyntype(m.Sum) == typeid(*kcons.Message_VoteSetMaj23) ==> unbox(m.Sum, *kcons.Message_VoteSetMaj23) != nil && unbox(m.Sum, *kcons.Message_VoteSetMaj23).VoteSetMaj23 != nil) && (dyntype(m.Sum) == typeid(*kcons.Message_VoteSetBits) ==> unbox(m.Sum, *kcons.Message_VoteSetBits) != nil && unbox(m.Sum, *kcons.Message_VoteSetBits).VoteSetBits != nil)
 //@ func MsgFromProto(msg *kcons.Message) (r Message, err error)
 //@   for C18
+//@   safe
+//@   requires msg != nil ==> wireMsgOK(msg)
 //@   modifies nothing
+//@   ensures [oneOfTheKnownTypes] err == nil ==> dyntype(r) == typeid(*NewRoundStepMessage) || dyntype(r) == typeid(*NewValidBlockMessage) || dyntype(r) == typeid(*ProposalMessage) || dyntype(r) == typeid(*ProposalPOLMessage) || dyntype(r) == typeid(*BlockPartMessage) || dyntype(r) == typeid(*VoteMessage) || dyntype(r) == typeid(*HasVoteMessage) || dyntype(r) == typeid(*VoteSetMaj23Message) || dyntype(r) == typeid(*VoteSetBitsMessage)
+//@   ensures [newRoundStepValidated] err == nil && dyntype(r) == typeid(*NewRoundStepMessage) ==> unbox(r, *NewRoundStepMessage) != nil && 1 <= unbox(r, *NewRoundStepMessage).Step && unbox(r, *NewRoundStepMessage).Step <= 8
+//@   ensures [newValidBlockValidated] err == nil && dyntype(r) == typeid(*NewValidBlockMessage) ==> unbox(r, *NewValidBlockMessage) != nil && unbox(r, *NewValidBlockMessage).BlockParts != nil && cmn.wfBits(unbox(r, *NewValidBlockMessage).BlockParts) && 0 < unbox(r, *NewValidBlockMessage).BlockParts.Bits && unbox(r, *NewValidBlockMessage).BlockParts.Bits <= types.MaxBlockPartsCount
+//@   ensures [proposalValidated] err == nil && dyntype(r) == typeid(*ProposalMessage) ==> unbox(r, *ProposalMessage) != nil && unbox(r, *ProposalMessage).Proposal != nil && unbox(r, *ProposalMessage).Proposal.POLBlockID.PartsHeader.Total <= types.MaxBlockPartsCount
+//@   ensures [proposalPolValidated] err == nil && dyntype(r) == typeid(*ProposalPOLMessage) ==> unbox(r, *ProposalPOLMessage) != nil && unbox(r, *ProposalPOLMessage).ProposalPOL != nil && cmn.wfBits(unbox(r, *ProposalPOLMessage).ProposalPOL) && 0 < unbox(r, *ProposalPOLMessage).ProposalPOL.Bits
+//@   ensures [blockPartValidated] err == nil && dyntype(r) == typeid(*BlockPartMessage) ==> unbox(r, *BlockPartMessage) != nil && unbox(r, *BlockPartMessage).Part != nil && len(unbox(r, *BlockPartMessage).Part.Bytes) <= types.BlockPartSizeBytes
+//@   ensures [voteValidated] err == nil && dyntype(r) == typeid(*VoteMessage) ==> unbox(r, *VoteMessage) != nil && unbox(r, *VoteMessage).Vote != nil
+//@   ensures [hasVoteValidated] err == nil && dyntype(r) == typeid(*HasVoteMessage) ==> unbox(r, *HasVoteMessage) != nil && (unbox(r, *HasVoteMessage).Type == kproto.PrevoteType || unbox(r, *HasVoteMessage).Type == kproto.PrecommitType)
+//@   ensures [voteSetMaj23Validated] err == nil && dyntype(r) == typeid(*VoteSetMaj23Message) ==> unbox(r, *VoteSetMaj23Message) != nil && (unbox(r, *VoteSetMaj23Message).Type == kproto.PrevoteType || unbox(r, *VoteSetMaj23Message).Type == kproto.PrecommitType)
+//@   ensures [voteSetBitsValidated] err == nil && dyntype(r) == typeid(*VoteSetBitsMessage) ==> unbox(r, *VoteSetBitsMessage) != nil && (unbox(r, *VoteSetBitsMessage).Type == kproto.PrevoteType || unbox(r, *VoteSetBitsMessage).Type == kproto.PrecommitType) && unbox(r, *VoteSetBitsMessage).Votes != nil && cmn.wfBitsOrEmpty(unbox(r, *VoteSetBitsMessage).Votes) && unbox(r, *VoteSetBitsMessage).Votes.Bits <= types.MaxVotesCount
 //@   ensures [nilRejected] msg == nil ==> err != nil
 //@   ensures [newRoundStep] err == nil && dyntype(old(msg.Sum)) == typeid(*kcons.Message_NewRoundStep) ==> dyntype(r) == typeid(*NewRoundStepMessage) && unbox(r, *NewRoundStepMessage).Height == old(unbox(msg.Sum, *kcons.Message_NewRoundStep).NewRoundStep.Height) && unbox(r, *NewRoundStepMessage).Round == old(unbox(msg.Sum, *kcons.Message_NewRoundStep).NewRoundStep.Round) && unbox(r, *NewRoundStepMessage).Step == old(unbox(msg.Sum, *kcons.Message_NewRoundStep).NewRoundStep.Step) % 256 && unbox(r, *NewRoundStepMessage).SecondsSinceStartTime == old(unbox(msg.Sum, *kcons.Message_NewRoundStep).NewRoundStep.SecondsSinceStartTime) && unbox(r, *NewRoundStepMessage).LastCommitRound == old(unbox(msg.Sum, *kcons.Message_NewRoundStep).NewRoundStep.LastCommitRound)
 //@   ensures [newValidBlock] err == nil && dyntype(old(msg.Sum)) == typeid(*kcons.Message_NewValidBlock) ==> dyntype(r) == typeid(*NewValidBlockMessage) && unbox(r, *NewValidBlockMessage).Height == old(unbox(msg.Sum, *kcons.Message_NewValidBlock).NewValidBlock.Height) && unbox(r, *NewValidBlockMessage).Round == old(unbox(msg.Sum, *kcons.Message_NewValidBlock).NewValidBlock.Round) && unbox(r, *NewValidBlockMessage).IsCommit == old(unbox(msg.Sum, *kcons.Message_NewValidBlock).NewValidBlock.IsCommit)
@@ -134,6 +153,200 @@ package consensus
 //@   ensures [hasVote] err == nil && dyntype(msg) == typeid(*HasVoteMessage) ==> r != nil && dyntype(r.Sum) == typeid(*kcons.Message_HasVote) && unbox(r.Sum, *kcons.Message_HasVote).HasVote.Height == old(unbox(msg, *HasVoteMessage).Height) && unbox(r.Sum, *kcons.Message_HasVote).HasVote.Round == old(unbox(msg, *HasVoteMessage).Round) && unbox(r.Sum, *kcons.Message_HasVote).HasVote.Type == old(unbox(msg, *HasVoteMessage).Type) && unbox(r.Sum, *kcons.Message_HasVote).HasVote.Index == old(unbox(msg, *HasVoteMessage).Index)
 //@   ensures [voteSetMaj23] err == nil && dyntype(msg) == typeid(*VoteSetMaj23Message) ==> r != nil && dyntype(r.Sum) == typeid(*kcons.Message_VoteSetMaj23) && unbox(r.Sum, *kcons.Message_VoteSetMaj23).VoteSetMaj23.Height == old(unbox(msg, *VoteSetMaj23Message).Height) && unbox(r.Sum, *kcons.Message_VoteSetMaj23).VoteSetMaj23.Round == old(unbox(msg, *VoteSetMaj23Message).Round) && unbox(r.Sum, *kcons.Message_VoteSetMaj23).VoteSetMaj23.Type == old(unbox(msg, *VoteSetMaj23Message).Type)
 //@   ensures [voteSetBits] err == nil && dyntype(msg) == typeid(*VoteSetBitsMessage) ==> r != nil && dyntype(r.Sum) == typeid(*kcons.Message_VoteSetBits) && unbox(r.Sum, *kcons.Message_VoteSetBits).VoteSetBits.Height == old(unbox(msg, *VoteSetBitsMessage).Height) && unbox(r.Sum, *kcons.Message_VoteSetBits).VoteSetBits.Round == old(unbox(msg, *VoteSetBitsMessage).Round) && unbox(r.Sum, *kcons.Message_VoteSetBits).VoteSetBits.Type == old(unbox(msg, *VoteSetBitsMessage).Type)
+
+// ---------------------------------------------------------------- C18: the consensus reactor validates before it uses
+// Every peer message type has a ValidateBasic that establishes what the peer-state handlers rely on;
+// the handlers never panic on a validated message, whatever the peer state (which is itself built from
+// earlier peer messages), and keep the peer state's bit arrays well formed.
+//@ spec func bitsOK(b *cmn.BitArray) bool = b == nil || cmn.wfBits(b)
+//@ spec func wfPS(ps *PeerState) bool = ps != nil && ps.logger != nil && ps.peer != nil && bitsOK(ps.PRS.ProposalBlockParts) && bitsOK(ps.PRS.ProposalPOL) && bitsOK(ps.PRS.Prevotes) && bitsOK(ps.PRS.Precommits) && bitsOK(ps.PRS.LastCommit) && bitsOK(ps.PRS.CatchupCommit)
+
+//@ func (m *NewRoundStepMessage) ValidateBasic() (err error)
+//@   for C18
+//@   safe
+//@   requires m != nil
+//@   modifies nothing
+//@   ensures [stepInRange] err == nil ==> 1 <= m.Step && m.Step <= 8
+//@ func (m *NewRoundStepMessage) ValidateHeight(initialHeight uint64) (err error)
+//@   for C18
+//@   safe
+//@   requires m != nil
+//@   modifies nothing
+//@   ensures [heightAndLastCommitRoundAgree] err == nil ==> m.Height >= initialHeight && (m.Height == initialHeight <==> m.LastCommitRound == 0)
+//@ func (m *NewValidBlockMessage) ValidateBasic() (err error)
+//@   for C18
+//@   safe
+//@   requires m != nil && (m.BlockParts != nil ==> cmn.wfBitsOrEmpty(m.BlockParts))
+//@   modifies nothing
+//@   ensures [partsBitArrayMatchesHeaderAndIsBounded] err == nil ==> m.BlockParts != nil && cmn.wfBits(m.BlockParts) && m.BlockParts.Bits == m.BlockPartsHeader.Total && 0 < m.BlockParts.Bits && m.BlockParts.Bits <= types.MaxBlockPartsCount
+//@ func (m *ProposalPOLMessage) ValidateBasic() (err error)
+//@   for C18
+//@   safe
+//@   requires m != nil && (m.ProposalPOL != nil ==> cmn.wfBitsOrEmpty(m.ProposalPOL))
+//@   modifies nothing
+//@   ensures [polBitArrayNotEmpty] err == nil ==> m.ProposalPOL != nil && cmn.wfBits(m.ProposalPOL) && m.ProposalPOL.Bits > 0
+//@ func (m *HasVoteMessage) ValidateBasic() (err error)
+//@   for C18
+//@   safe
+//@   requires m != nil
+//@   modifies nothing
+//@   ensures [voteTypeKnown] err == nil ==> m.Type == kproto.PrevoteType || m.Type == kproto.PrecommitType
+//@ func (m *VoteSetMaj23Message) ValidateBasic() (err error)
+//@   for C18
+//@   safe
+//@   requires m != nil
+//@   modifies nothing
+//@   ensures [voteTypeKnown] err == nil ==> m.Type == kproto.PrevoteType || m.Type == kproto.PrecommitType
+//@ func (m *VoteSetBitsMessage) ValidateBasic() (err error)
+//@   for C18
+//@   safe
+//@   requires m != nil && (m.Votes != nil ==> cmn.wfBitsOrEmpty(m.Votes))
+//@   modifies nothing
+//@   ensures [voteTypeKnown] err == nil ==> m.Type == kproto.PrevoteType || m.Type == kproto.PrecommitType
+//@   ensures [votesBitArrayBounded] err == nil && m.Votes != nil ==> m.Votes.Bits <= types.MaxVotesCount
+//@ func (m *BlockPartMessage) ValidateBasic() (err error)
+//@   for C18
+//@   safe
+//@   requires m != nil && m.Part != nil
+//@   modifies nothing
+//@   ensures [partSizeBounded] err == nil ==> len(m.Part.Bytes) <= types.BlockPartSizeBytes
+
+//@ func CompareHRS(h1 uint64, r1 uint32, s1 cstypes.RoundStepType, h2 uint64, r2 uint32, s2 cstypes.RoundStepType) (r int)
+//@   for C18
+//@   safe
+//@   modifies nothing
+//@   ensures r == -1 || r == 0 || r == 1
+
+// decodeMsg = Unmarshal into a message it allocates itself + MsgFromProto. Its frame (it writes only to
+// objects it allocates: gogo/protobuf's Unmarshal fills the message it is handed) is trusted; everything
+// else -- no panic, and the guarantees per message type -- is verified by the aspect below.
+//@ trusted func decodeMsg(bz []byte) (msg Message, err error)
+//@   modifies nothing
+//@   ensures [oneOfTheKnownTypes] err == nil ==> dyntype(msg) == typeid(*NewRoundStepMessage) || dyntype(msg) == typeid(*NewValidBlockMessage) || dyntype(msg) == typeid(*ProposalMessage) || dyntype(msg) == typeid(*ProposalPOLMessage) || dyntype(msg) == typeid(*BlockPartMessage) || dyntype(msg) == typeid(*VoteMessage) || dyntype(msg) == typeid(*HasVoteMessage) || dyntype(msg) == typeid(*VoteSetMaj23Message) || dyntype(msg) == typeid(*VoteSetBitsMessage)
+//@   ensures [newRoundStepValidated] err == nil && dyntype(msg) == typeid(*NewRoundStepMessage) ==> unbox(msg, *NewRoundStepMessage) != nil && 1 <= unbox(msg, *NewRoundStepMessage).Step && unbox(msg, *NewRoundStepMessage).Step <= 8
+//@   ensures [newValidBlockValidated] err == nil && dyntype(msg) == typeid(*NewValidBlockMessage) ==> unbox(msg, *NewValidBlockMessage) != nil && unbox(msg, *NewValidBlockMessage).BlockParts != nil && cmn.wfBits(unbox(msg, *NewValidBlockMessage).BlockParts) && 0 < unbox(msg, *NewValidBlockMessage).BlockParts.Bits && unbox(msg, *NewValidBlockMessage).BlockParts.Bits <= types.MaxBlockPartsCount
+//@   ensures [proposalValidated] err == nil && dyntype(msg) == typeid(*ProposalMessage) ==> unbox(msg, *ProposalMessage) != nil && unbox(msg, *ProposalMessage).Proposal != nil && unbox(msg, *ProposalMessage).Proposal.POLBlockID.PartsHeader.Total <= types.MaxBlockPartsCount
+//@   ensures [proposalPolValidated] err == nil && dyntype(msg) == typeid(*ProposalPOLMessage) ==> unbox(msg, *ProposalPOLMessage) != nil && unbox(msg, *ProposalPOLMessage).ProposalPOL != nil && cmn.wfBits(unbox(msg, *ProposalPOLMessage).ProposalPOL) && 0 < unbox(msg, *ProposalPOLMessage).ProposalPOL.Bits
+//@   ensures [blockPartValidated] err == nil && dyntype(msg) == typeid(*BlockPartMessage) ==> unbox(msg, *BlockPartMessage) != nil && unbox(msg, *BlockPartMessage).Part != nil && len(unbox(msg, *BlockPartMessage).Part.Bytes) <= types.BlockPartSizeBytes
+//@   ensures [voteValidated] err == nil && dyntype(msg) == typeid(*VoteMessage) ==> unbox(msg, *VoteMessage) != nil && unbox(msg, *VoteMessage).Vote != nil
+//@   ensures [hasVoteValidated] err == nil && dyntype(msg) == typeid(*HasVoteMessage) ==> unbox(msg, *HasVoteMessage) != nil && (unbox(msg, *HasVoteMessage).Type == kproto.PrevoteType || unbox(msg, *HasVoteMessage).Type == kproto.PrecommitType)
+//@   ensures [voteSetMaj23Validated] err == nil && dyntype(msg) == typeid(*VoteSetMaj23Message) ==> unbox(msg, *VoteSetMaj23Message) != nil && (unbox(msg, *VoteSetMaj23Message).Type == kproto.PrevoteType || unbox(msg, *VoteSetMaj23Message).Type == kproto.PrecommitType)
+//@   ensures [voteSetBitsValidated] err == nil && dyntype(msg) == typeid(*VoteSetBitsMessage) ==> unbox(msg, *VoteSetBitsMessage) != nil && (unbox(msg, *VoteSetBitsMessage).Type == kproto.PrevoteType || unbox(msg, *VoteSetBitsMessage).Type == kproto.PrecommitType) && unbox(msg, *VoteSetBitsMessage).Votes != nil && cmn.wfBitsOrEmpty(unbox(msg, *VoteSetBitsMessage).Votes) && unbox(msg, *VoteSetBitsMessage).Votes.Bits <= types.MaxVotesCount
+//@ aspect func decodeMsg(bz []byte) (msg Message, err error)
+//@   for C18
+//@   safe
+//@   modifies *
+//@   opt assumecallreqs
+//@   ensures [oneOfTheKnownTypes] err == nil ==> dyntype(msg) == typeid(*NewRoundStepMessage) || dyntype(msg) == typeid(*NewValidBlockMessage) || dyntype(msg) == typeid(*ProposalMessage) || dyntype(msg) == typeid(*ProposalPOLMessage) || dyntype(msg) == typeid(*BlockPartMessage) || dyntype(msg) == typeid(*VoteMessage) || dyntype(msg) == typeid(*HasVoteMessage) || dyntype(msg) == typeid(*VoteSetMaj23Message) || dyntype(msg) == typeid(*VoteSetBitsMessage)
+//@   ensures [newRoundStepValidated] err == nil && dyntype(msg) == typeid(*NewRoundStepMessage) ==> unbox(msg, *NewRoundStepMessage) != nil && 1 <= unbox(msg, *NewRoundStepMessage).Step && unbox(msg, *NewRoundStepMessage).Step <= 8
+//@   ensures [newValidBlockValidated] err == nil && dyntype(msg) == typeid(*NewValidBlockMessage) ==> unbox(msg, *NewValidBlockMessage) != nil && unbox(msg, *NewValidBlockMessage).BlockParts != nil && cmn.wfBits(unbox(msg, *NewValidBlockMessage).BlockParts) && 0 < unbox(msg, *NewValidBlockMessage).BlockParts.Bits && unbox(msg, *NewValidBlockMessage).BlockParts.Bits <= types.MaxBlockPartsCount
+//@   ensures [proposalValidated] err == nil && dyntype(msg) == typeid(*ProposalMessage) ==> unbox(msg, *ProposalMessage) != nil && unbox(msg, *ProposalMessage).Proposal != nil && unbox(msg, *ProposalMessage).Proposal.POLBlockID.PartsHeader.Total <= types.MaxBlockPartsCount
+//@   ensures [proposalPolValidated] err == nil && dyntype(msg) == typeid(*ProposalPOLMessage) ==> unbox(msg, *ProposalPOLMessage) != nil && unbox(msg, *ProposalPOLMessage).ProposalPOL != nil && cmn.wfBits(unbox(msg, *ProposalPOLMessage).ProposalPOL) && 0 < unbox(msg, *ProposalPOLMessage).ProposalPOL.Bits
+//@   ensures [blockPartValidated] err == nil && dyntype(msg) == typeid(*BlockPartMessage) ==> unbox(msg, *BlockPartMessage) != nil && unbox(msg, *BlockPartMessage).Part != nil && len(unbox(msg, *BlockPartMessage).Part.Bytes) <= types.BlockPartSizeBytes
+//@   ensures [voteValidated] err == nil && dyntype(msg) == typeid(*VoteMessage) ==> unbox(msg, *VoteMessage) != nil && unbox(msg, *VoteMessage).Vote != nil
+//@   ensures [hasVoteValidated] err == nil && dyntype(msg) == typeid(*HasVoteMessage) ==> unbox(msg, *HasVoteMessage) != nil && (unbox(msg, *HasVoteMessage).Type == kproto.PrevoteType || unbox(msg, *HasVoteMessage).Type == kproto.PrecommitType)
+//@   ensures [voteSetMaj23Validated] err == nil && dyntype(msg) == typeid(*VoteSetMaj23Message) ==> unbox(msg, *VoteSetMaj23Message) != nil && (unbox(msg, *VoteSetMaj23Message).Type == kproto.PrevoteType || unbox(msg, *VoteSetMaj23Message).Type == kproto.PrecommitType)
+//@   ensures [voteSetBitsValidated] err == nil && dyntype(msg) == typeid(*VoteSetBitsMessage) ==> unbox(msg, *VoteSetBitsMessage) != nil && (unbox(msg, *VoteSetBitsMessage).Type == kproto.PrevoteType || unbox(msg, *VoteSetBitsMessage).Type == kproto.PrecommitType) && unbox(msg, *VoteSetBitsMessage).Votes != nil && cmn.wfBitsOrEmpty(unbox(msg, *VoteSetBitsMessage).Votes) && unbox(msg, *VoteSetBitsMessage).Votes.Bits <= types.MaxVotesCount
+
+// The peer interface as the reactor uses it: the data the switch attached to the peer (InitPeer stores a
+// PeerState under types.PeerStateKey before the peer is started, and every PeerState method keeps it well
+// formed: see wfPS in the handlers' postconditions), its id, and a non-blocking send.
+//@ trusted func (p p2p.Peer) Get(key string) (r interface{})
+//@   modifies nothing
+//@   ensures key == types.PeerStateKey ==> dyntype(r) == typeid(*PeerState) && wfPS(unbox(r, *PeerState))
+//@ trusted func (p p2p.Peer) ID() (r p2p.ID)
+//@   modifies nothing
+//@ trusted func (p p2p.Peer) TrySend(chID byte, msgBytes []byte) (r bool)
+//@   modifies nothing
+// (encoding a message this node built itself: the generated marshaller does not fail)
+//@ trusted func MustEncode(msg Message) (r []byte)
+//@   requires msg != nil
+//@   modifies nothing
+
+// Receive: whatever the bytes and whatever the peer state, nothing panics; a message is decoded and
+// validated before any handler sees it, and each handler is reached only with what it relies on
+// established by that validation (the consensus state's own invariants -- vote sets, validator set --
+// are assumed: opt assumecallreqs; the at-call clauses are what this function must establish).
+//@ func (conR *ConsensusManager) Receive(chID byte, src p2p.Peer, msgBytes []byte)
+//@   for C18
+//@   safe
+//@   requires conR != nil && conR.conS != nil && conR.Switch != nil && conR.Logger != nil && src != nil
+//@   requires conR.conS.Validators != nil && conR.conS.Votes != nil && conR.conS.peerMsgQueue != nil
+//@   modifies *
+//@   opt assumecallreqs
+//@   atcall PeerState.ApplyNewRoundStepMessage requires [stepAndHeightValidated] msg != nil && 1 <= msg.Step && msg.Step <= 8 && msg.Height >= initialHeight && (msg.Height == initialHeight <==> msg.LastCommitRound == 0)
+//@   atcall PeerState.ApplyNewValidBlockMessage requires [partsBitArrayValidated] msg != nil && msg.BlockParts != nil && cmn.wfBits(msg.BlockParts) && 0 < msg.BlockParts.Bits && msg.BlockParts.Bits <= types.MaxBlockPartsCount
+//@   atcall PeerState.ApplyHasVoteMessage requires [voteTypeValidated] msg != nil && (msg.Type == kproto.PrevoteType || msg.Type == kproto.PrecommitType)
+//@   atcall PeerState.SetHasProposal requires [partsTotalValidated] proposal != nil && proposal.POLBlockID.PartsHeader.Total <= types.MaxBlockPartsCount
+//@   atcall PeerState.ApplyProposalPOLMessage requires [polBitArrayValidated] msg != nil && msg.ProposalPOL != nil && cmn.wfBits(msg.ProposalPOL)
+//@   atcall PeerState.SetHasProposalBlockPart requires [partIndexFromValidatedPart] 0 <= index && index <= 4294967295
+//@   atcall PeerState.SetHasVote requires [voteDecoded] vote != nil
+//@   atcall PeerState.ApplyVoteSetBitsMessage requires [votesBitArrayValidated] msg != nil && (msg.Votes != nil ==> cmn.wfBitsOrEmpty(msg.Votes) && msg.Votes.Bits <= types.MaxVotesCount) && bitsOK(ourVotes)
+//@   atcall HeightVoteSet.SetPeerMaj23 requires [voteTypeValidated] signedMsgType == kproto.PrevoteType || signedMsgType == kproto.PrecommitType
+
+// Peer-state handlers.
+//@ func (ps *PeerState) SetHasProposal(proposal *types.Proposal)
+//@   for C18
+//@   safe
+//@   requires wfPS(ps) && proposal != nil
+//@   requires proposal.POLBlockID.PartsHeader.Total <= types.MaxBlockPartsCount
+//@   modifies ps.PRS.Proposal, ps.PRS.ProposalBlockPartsHeader, ps.PRS.ProposalBlockParts, ps.PRS.ProposalPOLRound, ps.PRS.ProposalPOL
+//@   atcall NewBitArray requires [partsBitArrayBounded] bits <= types.MaxBlockPartsCount
+//@   ensures wfPS(ps)
+//@ func (ps *PeerState) SetHasProposalBlockPart(height uint64, round uint32, index int)
+//@   for C18
+//@   safe
+//@   requires wfPS(ps) && 0 <= index
+//@   modifies []uint64
+//@   ensures wfPS(ps)
+//@ func (ps *PeerState) ApplyNewValidBlockMessage(msg *NewValidBlockMessage)
+//@   for C18
+//@   safe
+//@   requires wfPS(ps) && msg != nil && msg.BlockParts != nil && cmn.wfBits(msg.BlockParts) && 0 < msg.BlockParts.Bits
+//@   modifies ps.PRS.ProposalBlockPartsHeader, ps.PRS.ProposalBlockParts
+//@   ensures wfPS(ps)
+//@ func (ps *PeerState) getVoteBitArray(height uint64, round uint32, signedMsgType kproto.SignedMsgType) (r *cmn.BitArray)
+//@   for C18
+//@   safe
+//@   requires wfPS(ps)
+//@   modifies nothing
+//@   ensures r == nil || r == ps.PRS.Prevotes || r == ps.PRS.Precommits || r == ps.PRS.CatchupCommit || r == ps.PRS.ProposalPOL || r == ps.PRS.LastCommit
+//@ func (ps *PeerState) ensureVoteBitArrays(height uint64, numValidators int)
+//@   for C18
+//@   safe
+//@   requires wfPS(ps) && numValidators <= 18014398509481984
+//@   modifies ps.PRS.Prevotes, ps.PRS.Precommits, ps.PRS.CatchupCommit, ps.PRS.ProposalPOL, ps.PRS.LastCommit
+//@   ensures wfPS(ps)
+//@ func (ps *PeerState) setHasVote(height uint64, round uint32, signedMsgType kproto.SignedMsgType, index uint32)
+//@   for C18
+//@   safe
+//@   requires wfPS(ps)
+//@   modifies []uint64
+//@   ensures wfPS(ps)
+//@ func (ps *PeerState) ApplyNewRoundStepMessage(msg *NewRoundStepMessage)
+//@   for C18
+//@   safe
+//@   requires wfPS(ps) && msg != nil
+//@   modifies ps.PRS
+//@   ensures wfPS(ps)
+//@ func (ps *PeerState) ApplyHasVoteMessage(msg *HasVoteMessage)
+//@   for C18
+//@   safe
+//@   requires wfPS(ps) && msg != nil
+//@   modifies []uint64
+//@   ensures wfPS(ps)
+//@ func (ps *PeerState) ApplyVoteSetBitsMessage(msg *VoteSetBitsMessage, ourVotes *cmn.BitArray)
+//@   for C18
+//@   safe
+//@   requires wfPS(ps) && msg != nil && (msg.Votes != nil ==> cmn.wfBitsOrEmpty(msg.Votes) && msg.Votes.Bits <= 18014398509481984) && bitsOK(ourVotes)
+//@   modifies []uint64
+//@   ensures wfPS(ps)
+//@ func (ps *PeerState) ApplyProposalPOLMessage(msg *ProposalPOLMessage)
+//@   for C18
+//@   safe
+//@   requires wfPS(ps) && msg != nil && msg.ProposalPOL != nil && cmn.wfBits(msg.ProposalPOL)
+//@   modifies ps.PRS.ProposalPOL
+//@   ensures wfPS(ps)
 
 // ---------------------------------------------------------------- C18/C03: a proposal is stored only with a possible POL round
 // Rounds are 1-based and 0 means "no proof-of-lock round": a stored proposal has POLRound 0 or a round
